@@ -102,16 +102,17 @@ _CLS = {}
 
 def lib_field(f):
     k = f['k']
+    kw = {'default': f['default_lib']} if 'default_lib' in f else {}
     if k == 'uint':
-        return tm.UintField(f['t'], fixed_len=f.get('fixed'))
+        return tm.UintField(f['t'], fixed_len=f.get('fixed'), **kw)
     if k == 'bool':
-        return tm.BoolField(f['t'])
+        return tm.BoolField(f['t'], **kw)
     if k == 'bytes':
-        return tm.BytesField(f['t'])
+        return tm.BytesField(f['t'], **kw)
     if k == 'text':
-        return tm.BytesField(f['t'], is_string=True)
+        return tm.BytesField(f['t'], is_string=True, **kw)
     if k == 'name':
-        return tm.NameField()
+        return tm.NameField(**kw)
     if k == 'model':
         return tm.ModelField(f['t'], build_class(f['fields']), ignore_critical=f.get('ic', False))
     if k == 'rep':
@@ -327,6 +328,25 @@ def check_case(shape, values, tier, deep=True):
             bad('encode-into-buffer-return', 'encode(buffer, 3) did not return the buffer')
     except Exception as e:  # noqa
         bad(f'encode-into-buffer-raises:{type(e).__name__}', f'encode(buffer, 3) raised {e!r}')
+    # a model is encoded, one of its name / list values is changed in place by the application, and it is encoded again
+    for f in shape:
+        v = values.get(f['n'])
+        if (f['k'] == 'name' and v is not None and not isinstance(v, TextName)) or (f['k'] == 'rep' and f['e']['k'] in ('uint', 'bytes') and v):
+            try:
+                m2 = make_instance(shape, values, cls)
+                m2.encode()
+                cur = getattr(m2, f['n'])
+                extra = C3 if f['k'] == 'name' else v[0]
+                cur.append(extra)
+                v2 = dict(values)
+                v2[f['n']] = list(v) + [extra]
+                w2, n2 = bytes(m2.encode()), m2.encoded_length()
+                r2 = tw.enc_model(shape, v2)
+                if w2 != r2 or n2 != len(r2):
+                    bad(f'encode-bytes|changed-in-place:{f["k"]}', f'after an element was appended to field {f["n"]} of an already encoded model, encode() = '
+                                                                   f'{w2[:24].hex()}.. ({len(w2)} B, encoded_length {n2}), the values now give {r2[:24].hex()}.. ({len(r2)} B)')
+            except Exception as e:  # noqa
+                bad(f'encode-raises:{type(e).__name__}|changed-in-place:{f["k"]}', f'{e!r}')
     want = norm_values(shape, values)
     try:
         back = cls.parse(wire)
@@ -751,6 +771,67 @@ def check_shipped(name, cls, shape, values):
     return viol
 
 
+UNSET = '<never assigned>'
+DEFAULT_FIELDS = [
+    # (field description, default as the reference sees it, assigned values: UNSET / absent / falsy / ordinary)
+    ({'k': 'uint', 't': 1, 'default_lib': 5}, 5, [UNSET, None, 0, 7]),
+    ({'k': 'uint', 't': 0x80, 'fixed': 2, 'default_lib': 0x1234}, 0x1234, [UNSET, None, 0, 1]),
+    ({'k': 'bytes', 't': 2, 'default_lib': b'xy'}, b'xy', [UNSET, None, b'', b'q']),
+    ({'k': 'text', 't': 253, 'default_lib': 'de'}, 'de', [UNSET, None, '', 't']),
+    ({'k': 'name', 't': 7, 'default_lib': [C1, C3]}, [C1, C3], [UNSET, None, [], [C2]]),
+    ({'k': 'bool', 't': 3, 'default_lib': True}, True, [UNSET, None, False, True]),
+]
+
+
+def default_cases():
+    """models of one and two fields declared with a default: every combination of never assigned / assigned None / assigned a falsy
+    value / assigned an ordinary value.  The value that counts is the assigned one when there was an assignment, else the default."""
+    for (f1, d1, m1), (f2, d2, m2) in itertools.product(DEFAULT_FIELDS, repeat=2):
+        if f1 is f2 and f1['k'] != 'uint':
+            continue
+        a, b = dict(f1, n='p'), dict(f2, n='q', t=f2['t'] + 8 if f2['k'] != 'name' else 7)
+        if a['k'] == 'name' and b['k'] == 'name':
+            continue
+        for v1, v2 in itertools.product(m1, m2):
+            yield [a, b], {'p': v1, 'q': v2}, {'p': d1 if v1 is UNSET else v1, 'q': d2 if v2 is UNSET else v2}
+
+
+def check_default_case(shape, given, effective):
+    viol = []
+    ref = tw.enc_model(shape, effective)
+
+    def bad(clause, what):
+        viol.append((f'C08|defaults|{clause}', f'{what}; fields {shape_str(shape)} assigned {val_str(given)} '
+                                               f'(a field never assigned counts with its declared default)'))
+    try:
+        cls = build_class(shape)
+        m = cls()
+        for f in shape:
+            if given[f['n']] is not UNSET:
+                setattr(m, f['n'], to_lib(f, given[f['n']]))
+        n = m.encoded_length()
+        wire = bytes(m.encode())
+    except Exception as e:  # noqa
+        bad(f'encode-raises:{type(e).__name__}', f'encoding raised {e!r}')
+        return 'encode-raises', viol
+    if wire != ref:
+        bad('encode-bytes', f'encode() = {wire.hex()} but the assigned / default values give {ref.hex()}')
+        return 'encode-differs', viol
+    if n != len(ref):
+        bad('encoded-length', f'encoded_length() = {n}, actual size {len(ref)}')
+    try:
+        back = cls.parse(wire)
+        for f in shape:
+            # an element that is on the wire reads back as written (an absent one reads as the default again: no claim)
+            if tw.enc_model([f], {f['n']: effective[f['n']]}):
+                got = from_lib(f, getattr(back, f['n']))
+                if got != norm_value(f, effective[f['n']]):
+                    bad('roundtrip', f'field {f["n"]} reads back {val_str(got)}')
+    except Exception as e:  # noqa
+        bad(f'parse-raises:{type(e).__name__}', f'parsing the encoded model raised {e!r}')
+    return ('ok' if not viol else 'viol'), viol
+
+
 def order_units():
     """shipped models related by inheritance, exercised one after the other in one process, in both orders"""
     sm = shipped_models()
@@ -772,6 +853,7 @@ def plan(tier, seed):
         units.append({'kind': 'programs', 'lo': lo, 'hi': min(len(shapes), lo + chunk), 'tier': tier})
     units.append({'kind': 'inherit', 'tier': tier})
     units.append({'kind': 'inherit', 'tier': tier, 'warm': True})
+    units.append({'kind': 'defaults', 'tier': tier})
     units += order_units()
     sm = shipped_models()
     for i, (name, cls, sh) in enumerate(sm):
@@ -827,6 +909,17 @@ def unit(arg):
         del WARM_FAILURES[:]
         acc.sample({'inheritance_patterns': [n for n, _, _ in inheritance_cases()]})
         del WARM_FAILURES[:]
+    elif arg['kind'] == 'defaults':
+        for sh, given, eff in default_cases():
+            key, viol = check_default_case(sh, given, eff)
+            acc.evaluations += 1
+            acc.state_count += 1
+            acc.nontrivial += 1
+            acc.outcome(f'defaults|{key}')
+            acc.observe([shape_str(sh), val_str(given), sorted({v[0] for v in viol})])
+            for sig, what in viol:
+                acc.violation(sig, what, {'kind': 'defaults', 'tier': tier})
+        acc.sample({'default_fields': [kind_tag(f) for f, _, _ in DEFAULT_FIELDS]})
     elif arg['kind'] == 'order':
         sm = shipped_models()
         for idx in (arg['first'], arg['second']):
@@ -866,6 +959,9 @@ def replay(case):
         return [{'sig': s, 'what': v[0]['what']} for s, v in acc.violations.items() if s == case.get('sig', s)]
     if case['kind'] == 'order':
         acc = unit({'kind': 'order', 'first': case['first'], 'second': case['second'], 'names': case['names'], 'tier': 'quick'})
+        return [{'sig': s, 'what': v[0]['what']} for s, v in acc.violations.items()]
+    if case['kind'] == 'defaults':
+        acc = unit({'kind': 'defaults', 'tier': case['tier']})
         return [{'sig': s, 'what': v[0]['what']} for s, v in acc.violations.items()]
     if case['kind'] == 'inherit':
         acc = unit({'kind': 'inherit', 'tier': case['tier'], 'warm': case.get('warm', False)})
